@@ -124,6 +124,7 @@ pub fn run_case(case: &Case, st: &mut Stats) -> CaseResult {
     let mut positions: BTreeSet<usize> = BTreeSet::new();
     let mut big_node = false;
     let mut pairs = 0u64;
+    let mut sweep_budget = 12usize;
     for (i, op) in case.ops.iter().enumerate() {
         let Some(out) = run.step(op) else {
             st.bump("op_not_applicable");
@@ -190,6 +191,64 @@ pub fn run_case(case: &Case, st: &mut Stats) -> CaseResult {
         }
         // library's own predicates are recorded, never decisive
         st.flag("library_is_canonical_false", !p.is_canonical());
+        // condition sweep: every cofactor of the new result must be well formed and canonical too
+        // (conditioning re-assembles nodes by a route of its own: falsified primes, unchanged subs, ...)
+        if sdd_is_internal(p) && sweep_budget > 0 {
+            sweep_budget -= 1;
+            for v in run.labels.clone() {
+                for val in [false, true] {
+                    let c = b.condition(p, rsdd::repr::VarLabel::new_usize(v), val);
+                    let want = t.cofactor(v, val);
+                    let gotc = sdd_tt_m(c, &mut memo);
+                    ensure!(
+                        gotc == want,
+                        "C04/wrong-function:condition-sweep",
+                        "condition(result of op #{}, x{} = {}) denotes {:?}, expected {:?} (vtree {:?})",
+                        i,
+                        v,
+                        val,
+                        gotc,
+                        want,
+                        shape
+                    );
+                    for n in sdd_nodes(c) {
+                        let k = sdd_key(n).unwrap();
+                        if checked.insert(k) {
+                            check_node(n, &info, &mut memo, st).map_err(|mut f| {
+                                f.detail = format!(
+                                    "{} [reachable from condition(result of op #{} {:?}, x{} = {}); vtree {:?}]",
+                                    f.detail, i, op, v, val, shape
+                                );
+                                f
+                            })?;
+                        }
+                    }
+                    match canon.get(&want) {
+                        Some((q, j)) => {
+                            pairs += 1;
+                            ensure!(
+                                *q == c,
+                                "C04/equal-functions-different-pointers",
+                                "condition(result of op #{} {:?}, x{} = {}) is {:?} for the function {:?}, but pool entry {} already holds {:?} for it (vtree {:?})",
+                                i,
+                                op,
+                                v,
+                                val,
+                                c,
+                                want,
+                                j,
+                                q,
+                                shape
+                            );
+                        }
+                        None => {
+                            canon.insert(want, (c, out.idx));
+                        }
+                    }
+                    st.bump("condition_sweep");
+                }
+            }
+        }
     }
     st.add("canonicity_pairs", pairs);
     st.add("table_grows", rsdd::verif_hooks::table_grows() - grow0);
@@ -204,7 +263,7 @@ impl SubCheckT for WellFormed {
     type Case = Case;
     const NAME: &'static str = "wellformed";
     const REPLAY_ATTEMPTS: u32 = 20;
-    const RULE: &'static str = "C03-style histories on the compressing builder (unique tables of 1..32 slots or default), with the extra op Rebuild(i) = re-derive entry i from its truth table as a disjunction of cubes in a shuffled variable order. For every node reachable from every result, with left/right variable sets taken from the harness's own in-order numbering of the vtree: primes non-false, pairwise disjoint, exhaustive (truth tables); variables syntactically reachable in primes within the left set and in subs within the right set; subs pairwise distinct (pointer and function); no {(T,s)}, no {(p,T),(!p,F)}, binary nodes with distinct children; and equal truth tables => pointer equality (results, rebuilds and negations). Non-trivial: a non-binary decision node with >=3 elements or decision nodes at >=2 vtree positions";
+    const RULE: &'static str = "C03-style histories on the compressing builder (unique tables of 1..32 slots or default), with the extra op Rebuild(i) = re-derive entry i from its truth table as a disjunction of cubes in a shuffled variable order. For every node reachable from every result, with left/right variable sets taken from the harness's own in-order numbering of the vtree: primes non-false, pairwise disjoint, exhaustive (truth tables); variables syntactically reachable in primes within the left set and in subs within the right set; subs pairwise distinct (pointer and function); no {(T,s)}, no {(p,T),(!p,F)}, binary nodes with distinct children; and equal truth tables => pointer equality (results, rebuilds and negations); the first 12 decision-node results of each history are additionally conditioned on every (variable, value) and the cofactors are held to the same function / node / canonicity checks. Non-trivial: a non-binary decision node with >=3 elements or decision nodes at >=2 vtree positions";
     fn cases(tier: Tier) -> u32 {
         tier.pick(3000, 100_000)
     }
